@@ -84,7 +84,7 @@ Definition document (o : opts) (v : pv) : hnode :=
 Definition document_tags : list str := [s_html; s_head; s_body; s_style_tag].
 
 (* wire: (3 opts pv) -> (3 rendered-document); everything else as Model.Html.run *)
-Definition run (c : tr) : tr :=
+Definition run_doc (c : tr) : tr :=
   match c with
   | L [I 3%Z; o; v] =>
       match d_opts o, d_pv 100 v with
